@@ -227,6 +227,13 @@ impl ContextInner {
   }
 }
 
+#[cfg(rzmq_verif)]
+impl ContextInner {
+  pub(crate) fn verif_actor_count(&self) -> usize {
+    self.actor_wait_group.get_count()
+  }
+}
+
 /// A handle to an rzmq context, managing sockets and shared resources.
 /// `Context` handles are cloneable (`Arc`-based).
 #[derive(Clone)]
